@@ -436,7 +436,11 @@ def handle (st : Stats) (line : String) : IO Stats := do
     | "P" => handleP st rest inp
     | "R" => handleR st rest inp
     | "F" => handleF st rest inp
-    | "X" => note (st.bump "X") "ORACLE" false s!"kind=sanitizer-abort in={"|".intercalate (rest.dropLast)} the-run-was-killed-by-ASan/UBSan"
+    | "X" =>
+      -- c20_parse.c prints its X lines without the leading T of the case: put it back so that the case can be replayed
+      let cs := rest.dropLast
+      let cs := if ["tok", "cdb", "ctl", "ip", "hdr", "gl", "scan"].contains (cs.headD "") then "T" :: cs else cs
+      note (st.bump "X") "ORACLE" false s!"kind=sanitizer-abort in={"|".intercalate cs} the-run-was-killed-by-ASan/UBSan"
     | _ => note st "DISAGREE" true s!"kind=unknown unparsable in={(line.take 200)}"
 
 def main : IO Unit := runDriver handle
